@@ -393,7 +393,13 @@ class Runner:
                 o._sim_role = role
                 ent["listeners"][role] = o
             ls.append(o)
-        ent["sm"].add_listener(*ls)
+        if op.get("via") == "observer":
+            # the deprecated alias of add_listener()
+            with warnings.catch_warnings():
+                warnings.simplefilter("ignore")
+                ent["sm"].add_observer(*ls)
+        else:
+            ent["sm"].add_listener(*ls)
         return None
 
     def do_write(self, op):
